@@ -725,7 +725,7 @@ impl Judge<'_> {
                     format!("{}|honest|{}|{}", a.detail, kind, if !z.spec.signed { "unsigned" } else if z.spec.nsec3.is_some() { "nsec3" } else { "nsec" })
                 } else if min_steps.len() > 1 {
                     // needs the history (validation cache): which faults came before matters less than that
-                    format!("{}|via-history|{}", a.detail, if last.faults.is_empty() { "honest-step-after-tampering" } else { "tampered-step" })
+                    format!("{}|via-history:{}|{}", a.detail, fault_kinds(min_steps.iter().flat_map(|s| s.faults.iter().map(|f| f.kind.as_str()))), if last.faults.is_empty() { "honest-step-after-tampering" } else { "tampered-step" })
                 } else if last.faults.len() > 1 {
                     format!("{}|multi-fault:{}", a.detail, fault_kinds(last.faults.iter().map(|f| f.kind.as_str())))
                 } else if (a.rule == "secure-despite-broken-link" && matches!(a.detail.as_str(), "dnskey" | "own-rrsig:dnskey")) || (a.rule == "secure-rrset-incomplete" && a.detail == "dnskey") {
@@ -752,7 +752,8 @@ impl Judge<'_> {
 
 // ---------------------------------------------------------------------------------------------
 
-/// The distinct fault kinds (with their variant) of a fault set that did not shrink to one fault, sorted:
+/// The distinct fault kinds (with their variant) of a fault set that did not shrink to one fault (or of all
+/// steps of a history that did not shrink to one step), sorted:
 /// part of the signature so that a combination is attributed to its ingredients.
 pub fn fault_kinds<'a>(kinds: impl Iterator<Item = &'a str>) -> String {
     let mut v: Vec<&str> = kinds.collect();
